@@ -19,7 +19,7 @@ EXPLANATION = (
     'discarded.'
 )
 ASSUMPTIONS = ["Task.cancel() delivers CancelledError at the task's current await", "asyncio.current_task() identifies the caller so close() does not cancel itself"]
-FLOORS = {"C15.R1": 3, "C15.R2": 4, "C15.R3": 14, "C15.R4": 1, "C15.R5": 9, "C15.R6": 1, "C15.R7": 1, "C15.R8": 1, "C15.R9": 1, "C15.R10": 1}
+FLOORS = {"C15.R1": 3, "C15.R2": 4, "C15.R3": 14, "C15.R4": 1, "C15.R5": 9, "C15.R6": 1, "C15.R7": 1, "C15.R8": 1, "C15.R9": 1, "C15.R10": 1, "C15.R11": 1}
 
 
 def run(ctx):
@@ -42,6 +42,9 @@ def run(ctx):
 
     reuse(ctx, "C15.R9", [c07.r11], "every task the socket starts is kept in _background_tasks until it is done, which is what close() cancels (C07.R11)",
           keep=lambda o: "tracked" in o.construct or "released" in o.construct or "creates" in o.construct or o.verdict != "HOLDS")
+    from . import c12
+
+    reuse(ctx, "C15.R11", [c12.r4], "init() after shutdown() subscribes the same handlers again without doubling them: subscriber containers are sets (C12.R4)")
     reuse(ctx, "C15.R10", [c07.r7], "a subscriber callback that is running when close() cancels the read loop ends with it: callbacks are awaited directly or through gather(), not wrapped in tasks of their own (C07.R7)",
           keep=lambda o: "callbacks-end-with-the-notifier" in o.construct or o.verdict != "HOLDS")
     reuse(ctx, "C15.R7", [c07.r2], "close() cannot fail half-way: _disconnect closes the writer, never raises and clears the connection state (C07.R2)")
@@ -106,6 +109,13 @@ def r1_r2(ctx):
         has_exit = any(isinstance(x, (ast.Break, ast.Return, ast.Continue)) for s in lp.body for x in ast.walk(s))
         if filt_ok and not has_exit and src is not it:
             cancel_ok = True
+    if cancel_ok:
+        # ... before close() first suspends: a connect attempt that completes while close() awaits the disconnect would otherwise
+        # leave an open connection behind
+        cn_ = [n for n in g.nodes if n.ast is not None and n.kind == "stmt" and any(isinstance(x, ast.Call) and isinstance(x.func, ast.Attribute) and x.func.attr == "cancel" for x in walk_no_nested(n.ast))]
+        aw_ = [n for n in g.nodes if n.awaits]
+        late = [a_ for a_ in aw_ if cn_ and not any(g.exists_path(c_.id, a_.id, labels=NONEXC) for c_ in cn_) or any(g.exists_path(a_.id, c_.id, labels=NONEXC) for c_ in cn_)]
+        ctx.check(not late, R2, "close:cancels-before-first-await", m, (late[0].ast if late else cl.node), "the background tasks are cancelled before close() awaits anything", f"`{norm_text(late[0].ast)[:60]}` (line {late[0].lineno}) is awaited while delayed connects and the read loop are still alive" if late else "")
     ctx.check(cancel_ok, R2, "close:cancels-background-tasks", m, cl.node, "close() cancels every task in _background_tasks (except the calling task)", found if not cancel_ok else "")
     if cancel_ok:
         # cancellation happens on every path of an open socket
@@ -200,7 +210,22 @@ def _cancel_await(ctx, fn: Fn, storage: str):
             c = any(isinstance(x, ast.Call) and dotted(x.func) == f"{v}.cancel" for s in lp.body for x in ast.walk(s))
             a = any(isinstance(x, ast.Await) and dotted(x.value) == v for s in lp.body for x in ast.walk(s))
             early = any(isinstance(x, (ast.Break, ast.Return)) for s in lp.body for x in ast.walk(s))
-            if c and a and not early:
+            # awaiting a cancelled task raises CancelledError: it has to be absorbed INSIDE the loop body (try / suppress around the
+            # await), otherwise the first task ends the loop and the remaining ones are never cancelled
+            def _absorbed(aw):
+                for st in ast.walk(lp):
+                    if st is lp:
+                        continue
+                    inside = any(y is aw for y in ast.walk(st))
+                    if not inside:
+                        continue
+                    if isinstance(st, ast.Try) and any(h.type is None or "CancelledError" in unparse(h.type) or (dotted(h.type) or "").split(".")[-1] == "BaseException" for h in st.handlers) and any(y is aw for b_ in st.body for y in ast.walk(b_)):
+                        return True
+                    if isinstance(st, (ast.With, ast.AsyncWith)) and any("suppress" in unparse(i.context_expr) and "CancelledError" in unparse(i.context_expr) for i in st.items):
+                        return True
+                return False
+            aws = [x for s in lp.body for x in ast.walk(s) if isinstance(x, ast.Await) and dotted(x.value) == v]
+            if c and a and not early and all(_absorbed(x) for x in aws):
                 return True
     return False
 
